@@ -10,7 +10,7 @@ export OMP_NUM_THREADS=1 OPENBLAS_NUM_THREADS=1 PYTHONDONTWRITEBYTECODE=1
 cd "$wt"
 PYTHONPATH="$wt" timeout 300 /venv/bin/python "$demo" >/dev/null 2>&1; clean_rc=$?
 if ! git apply "$patch" 2>/dev/null; then git apply --3way "$patch" >/dev/null 2>&1 || { echo "$name: PATCH DOES NOT APPLY"; exit 3; }; fi
-git diff > /tmp/confirm_$name.diff
+git diff HEAD > /tmp/confirm_$name.diff
 PYTHONPATH="$wt" timeout 300 /venv/bin/python "$demo" >/dev/null 2>&1; mut_rc=$?
 suite=$(PYTHONPATH="$wt" timeout 1500 /venv/bin/python -m pytest -q -p no:cacheprovider --deselect tests/test_ridge.py::RidgeRegressionTest::test_predict_ridge_scaler -x 2>&1 | tail -1)
 echo "$name: demo clean rc=$clean_rc, demo with change rc=$mut_rc, suite: $suite"
